@@ -15,6 +15,7 @@ import (
 type EntryCfg struct {
 	Func       string   `json:"func"`        // <pkgpath>.<Func> (pkgpath relative to module allowed)
 	Tiers      []string `json:"tiers"`       // empty = both
+	TierAs     string   `json:"tier_as"`     // run this entry at this tier's bound whatever the check's tier (sibling-property entries)
 	Reach      []string `json:"reach"`       // required reachability witnesses
 	MaxPaths   int      `json:"max_paths"`   // 0 = default
 	MapPerm    bool     `json:"map_perm"`    // explore map iteration orders
@@ -193,6 +194,10 @@ func cmdCheck(args []string) int {
 			fmt.Fprintln(os.Stderr, "BROKEN-CHECK", err)
 			return 2
 		}
+		eng.tier = *tier
+		if ent.TierAs != "" {
+			eng.tier = ent.TierAs
+		}
 		ex := NewExplorer(eng, fn)
 		ex.workers = *workers
 		ex.deadline = deadline
@@ -238,9 +243,9 @@ func cmdCheck(args []string) int {
 			}
 			for i, smp := range res.Conform {
 				path := filepath.Join(conformDir, fmt.Sprintf("%s-%d.json", shortName(ent.Func), i))
-				jb, _ := json.MarshalIndent(map[string]interface{}{"property": id, "entry": full, "label": "", "model": smp.Model, "labels": smp.Labels, "tier": *tier}, "", " ")
+				jb, _ := json.MarshalIndent(map[string]interface{}{"property": id, "entry": full, "label": "", "model": smp.Model, "labels": smp.Labels, "tier": eng.tier}, "", " ")
 				os.WriteFile(path, jb, 0o644)
-				out := rb.run(path, full[k+1:], *tier)
+				out := rb.run(path, full[k+1:], eng.tier)
 				conform.Samples++
 				got, okTrace := "", false
 				for _, line := range strings.Split(out, "\n") {
@@ -286,7 +291,7 @@ func cmdCheck(args []string) int {
 				path := filepath.Join(outDir, fmt.Sprintf("%s-%s-%d.json", shortName(ent.Func), sanitizeFile(l), i))
 				doc := map[string]interface{}{
 					"property": id, "entry": fullFunc(ent.Func), "label": l, "model": s.Model,
-					"trace": s.Trace, "detail": s.Detail, "tier": *tier,
+					"trace": s.Trace, "detail": s.Detail, "tier": eng.tier,
 				}
 				jb, _ := json.MarshalIndent(doc, "", " ")
 				os.WriteFile(path, jb, 0o644)
